@@ -86,6 +86,98 @@ def run(ctx, R):
                         detail = "write to %s[..] trailed (%s)" % (kind, sorted(named) or "by reference")
                 R.ob("C11:write-trailed:%s@%d" % (short(top), s["ln"] - F.items[top]["line"]), ok, detail, "%s (line %s)" % (F.where(top), s["ln"]))
     R.floor("trailed cell writes", n_pairs, 10)
+    # ---- R1c: crate-wide, a function that assigns to an indexed heap / stack cell (other than the scratch cell heap[0])
+    # either trails (R1 above) or is on the table below, one reason each
+    UNTRAILED_WRITERS = {
+        "MachineState::verify_attributes": "un-binds the attributed variables for the duration of their hooks; the entry made by the original binding stays on the trail",
+        "Machine::compile_inline_or_expanded_goal": "fills cells of the goal structure it has just allocated (h+1 ..): newer than every choice point",
+        "Machine::get_continuation_chunk": "binds permanent variables of the frame to fresh heap cells and pushes the TrailedStackVar entry inline (borrow checker), under the same `< b` condition as trail()",
+        "<'a>::modify_head_of_queue": "term construction in read.rs: cells of the term being written, allocated by this reader",
+        "<'a>::write_term_to_heap": "term construction in read.rs: cells of the term being written, allocated by this reader",
+        "Machine::unwind_trail": "the undo itself",
+    }
+    trailing = {re.sub(r"(::\{closure#\d+\})+$", "", c) for c in callers}
+    n_w = 0
+    for p, it in sorted(F.items.items()):
+        if it["kind"] not in ("Fn", "AssocFn") or not it["file"].startswith("src/") or "::tests::" in p or it["file"].endswith("mock_wam.rs") or p in trailing:
+            continue
+        if it["file"] in ("src/machine/gc.rs", "src/machine/copier.rs", "src/machine/cycle_detection.rs", "src/heap_iter.rs", "src/machine/heap.rs", "src/machine/stack.rs"):
+            continue  # collectors / iterators / the stores themselves: marks and forwarding cells, restored by their own protocols (C30 copier rule, C34)
+        try:
+            ph = F.hir(p)
+        except AnchorLost:
+            continue
+        lines = []
+        for x in walk(ph["body"]):
+            if x["k"] == "Assign":
+                ch = chain(x["lhs"])
+                if ch and ch[-1] == "[]" and len(ch) >= 2 and ch[-2] in ("heap", "stack"):
+                    idx = x["lhs"].get("idx") or {}
+                    if idx.get("k") == "Lit" and str(idx.get("lit", {}).get("int")) == "0":
+                        continue
+                    lines.append(x["ln"])
+        if lines:
+            n_w += 1
+            sp = short(p)
+            R.ob("C11:untrailed-cell-write:%s" % sp, sp in UNTRAILED_WRITERS,
+                 ("listed: " + UNTRAILED_WRITERS[sp]) if sp in UNTRAILED_WRITERS else
+                 "%s assigns to an indexed heap/stack cell at line(s) %s and never calls MachineState::trail: if the cell is older than a choice point the write survives backtracking" % (sp, lines),
+                 F.where(p))
+    R.floor("functions writing indexed cells without trailing", n_w, 4)
+    # ---- R1b: whether an update needs a trail entry is decided in ONE place, MachineState::trail (older than the newest
+    # choice point? R2 below). A caller that skips the call because of what it sees on the trail / in tr, hb, b re-decides
+    # that question without the choice-point boundary (e.g. "the top entry is already one for this key")
+    TRAIL_STATE = {"trail", "tr", "hb", "b", "block"}
+    n_tc = 0
+    for fn in callers:
+        top = re.sub(r"(::\{closure#\d+\})+$", "", fn)
+        if top == tr:
+            continue
+        body = F.hir(top)["body"]
+        lets = {x["pat"]["name"]: x["init"] for x in walk(body) if x["k"] == "Let" and x["pat"]["k"] == "PBind" and "init" in x}
+
+        def names_of(e, depth=0):
+            out = set()
+            for x in walk(e):
+                if x["k"] == "Field":
+                    out.add(x["name"])
+                if x["k"] == "Path" and depth < 3:
+                    nm = res_name(x)
+                    if nm in lets:
+                        out |= names_of(lets[nm], depth + 1)
+            return out
+
+        sites = []
+
+        def rec(n, conds):
+            if isinstance(n, list):
+                for x in n:
+                    rec(x, conds)
+                return
+            if not isinstance(n, dict):
+                return
+            if n.get("k") == "MethodCall" and (n.get("resolved") or "") == tr:
+                sites.append((n, list(conds)))
+            if n.get("k") == "If":
+                rec(n["cond"], conds)
+                rec(n["then"], conds + [n["cond"]])
+                if n.get("else"):
+                    rec(n["else"], conds + [n["cond"]])
+                return
+            for k, v in n.items():
+                if k != "mac" and isinstance(v, (dict, list)):
+                    rec(v, conds)
+        rec(body, [])
+        for i, (site, conds) in enumerate(sites):
+            n_tc += 1
+            used = set()
+            for c in conds:
+                used |= names_of(c) & TRAIL_STATE
+            R.ob("C11:trail-call:not-conditional-on-trail-state:%s#%d" % (short(top), i), not used,
+                 "the trail call at line %s of %s is skipped or taken depending on %s: only MachineState::trail may decide (against hb / b) whether an update needs an entry; "
+                 "a caller-side test such as `the top entry is already one for this key` ignores the choice points pushed since that entry and loses the value to restore"
+                 % (site["ln"], short(top), sorted(used)), F.where(top))
+    R.floor("trail call sites", n_tc, 14)
     # bind: the RefTag arms write the store their tag names
     bind = F.find_impl("MachineState", None, "bind")
     bh = F.hir(bind)
